@@ -533,6 +533,456 @@ def r5_normalize(run):
         raise UnknownIdiom('; '.join(pending[:3]))
 
 
+# ---------------------------------------------------------------------------
+# R6-R8 stream-position model of the buffer
+#
+# Ghost quantity `base`: the stream offset of _buffer[0].  The cursor is the
+# absolute position base + _buffer_pos.  Buffer stores move the base:
+#   _buffer += x / _buffer = _buffer + x        base unchanged (positions stable)
+#   _buffer = _buffer[k:] (+ x)                 base += k
+#   _buffer = <value not derived from it>       base += len(old buffer)   (the next chunk of the stream)
+# A value derived from the buffer (`self._buffer`, a slice of it, a local
+# bound to either, a concatenation) is a list of pieces with ABSOLUTE bounds,
+# so it stays meaningful after the buffer was trimmed / extended / replaced.
+# ---------------------------------------------------------------------------
+
+SOURCE_IT = 'self._source'
+_SEARCH_FAMILY = {'index', 'rfind', 'rindex', 'partition', 'rpartition', 'split', 'rsplit', 'count'}
+_E_BUF, _E_BLEN, _E_BPOS = _expr(BUF), _expr(BLEN), _expr(BPOS)
+_PURE_CALLS = ('len', 'min', 'max')
+
+# candidate loop invariants (Houdini: assumed at every loop head, dropped until inductive)
+_CANDIDATES = {
+    'cursor at 0': lambda e: (e.eval(_E_BPOS), Lin.const(0)),
+    'buffer drained': lambda e: (e.eval(_E_BPOS), e.eval(_E_BLEN)),
+}
+
+
+def _mentions_buffer(e, regions):
+    for x in ast.walk(e):
+        if isinstance(x, ast.Attribute) and dotted(x) == BUF:
+            return True
+        if isinstance(x, ast.Name) and x.id in regions:
+            return True
+    return False
+
+
+def _is_negative(env, r):
+    """Is the integer r < 0 on this path (r <= -1, or r <= 0 together with r != 0)?"""
+    if env.prove_le(r, -1):
+        return True
+    return env.prove_le(r, 0) and any(n == r or n == -r for n in env.neq)
+
+
+def _inlinable(callee, call):
+    """A parameterless straight-line helper (e.g. _trim_buffer) is executed in place."""
+    if call.args or call.keywords or callee.is_async or [a for a in callee.params() if a != 'self']:
+        return False
+    for s in callee.node.body:
+        if isinstance(s, ast.Expr) and isinstance(s.value, ast.Constant):
+            continue
+        if isinstance(s, (ast.Assign, ast.AugAssign, ast.AnnAssign, ast.Pass)) or (isinstance(s, ast.Return) and s.value is None):
+            if any(isinstance(x, (ast.Yield, ast.YieldFrom, ast.Await)) for x in ast.walk(s)):
+                return False
+            continue
+        return False
+    return True
+
+
+class _StreamModel:
+    """Abstract execution of every acyclic segment of one reader method with the ghost stream offset.
+    mode: 'R6' search starts, 'R7' early hand-out keeps a delimiter tail, 'R8' conservation of the cursor."""
+
+    def __init__(self, run, v, rd, f, mode):
+        self.run, self.v, self.rd, self.f, self.mode = run, v, rd, f, mode
+        self.cfg = cfg_of(f, run.project)
+        run.use_cfg(self.cfg)
+        self.dl = Lin.atom(('len', ('v', DELIM)))
+        self.quiet = True
+        self.wit = None
+        self.invariants = {}
+
+    # ------------------------------------------------------------------ state
+    def start_env(self, start):
+        env = _start_env(self.rd, self.f, self.on_call)
+        env.kind[('v', DELIM)] = 'seq'
+        base = Lin.atom(('v', '<stream offset of _buffer[0]>'))
+        env.ghost.update(base=base, prev=base + env.var(BPOS), regions={}, srcnames=frozenset(), finds=(), lost=None, last=None)
+        for c in sorted(self.invariants.get(start, ())):
+            a, b = _CANDIDATES[c](env)
+            env.add_eq(a, b)
+        return env
+
+    def lose(self, env, why):
+        g = env.ghost
+        g['base'] = Lin.atom(fresh('stream offset'))
+        g['regions'] = {}
+        g['finds'] = ()
+        g['lost'] = g['lost'] or why
+        bp = env.eval(_E_BPOS)
+        g['prev'] = g['base'] + bp if isinstance(bp, Lin) else g['base']
+
+    def unknown(self, text):
+        if not self.quiet:
+            self.v.unknown('%s: %s' % (self.f.qual, text))
+
+    def cursor(self, env):
+        bp = env.eval(_E_BPOS)
+        if not isinstance(bp, Lin):
+            self.unknown('%s is not a number on some path' % BPOS)
+            return None
+        return env.ghost['base'] + bp
+
+    def buffer_end(self, env):
+        return env.ghost['base'] + env.length(env.eval(_E_BUF), BUF)
+
+    # ----------------------------------------------------------------- values
+    def pieces(self, env, e):
+        """What an expression is made of: ('buf', abs_lo, abs_hi, exact) | ('src', name) | ('const', n) | ('other',) | ('opaque', text)."""
+        g = env.ghost
+        if isinstance(e, (ast.Name, ast.Attribute)):
+            if dotted(e) == BUF:
+                return [('buf', g['base'], self.buffer_end(env), True)]
+            if isinstance(e, ast.Name):
+                if e.id in g['regions']:
+                    return list(g['regions'][e.id])
+                return [('src', e.id)] if e.id in g['srcnames'] else [('other',)]
+        if isinstance(e, ast.Constant) and isinstance(e.value, (bytes, str)):
+            return [('const', len(e.value))]
+        if isinstance(e, ast.BinOp) and isinstance(e.op, ast.Add):
+            return self.pieces(env, e.left) + self.pieces(env, e.right)
+        if isinstance(e, ast.Subscript) and isinstance(e.slice, ast.Slice):
+            inner = self.pieces(env, e.value)
+            if not any(p[0] in ('buf', 'opaque') for p in inner):
+                return [('other',)]
+            if any(p[0] == 'opaque' for p in inner):
+                return [('opaque', unparse(e))]
+            s = e.slice
+            if s.step is not None or len(inner) != 1 or not inner[0][3]:
+                # somewhere inside the pieces: still not before their start, exact bounds not tracked
+                return [(p[0], p[1], p[2], False) if p[0] == 'buf' else p for p in inner]
+            _k, lo0, hi0, _x = inner[0]
+            bounds = []
+            for x in (s.lower, s.upper):
+                if x is None:
+                    bounds.append(None)
+                    continue
+                if any(isinstance(c, ast.Call) and not (isinstance(c.func, ast.Name) and c.func.id in _PURE_CALLS) for c in ast.walk(x)):
+                    return [('opaque', unparse(e))]
+                val = env.eval(x)
+                if not isinstance(val, Lin) or (val.is_const and val.c < 0):
+                    return [('opaque', unparse(e))]
+                bounds.append(val)
+            return [('buf', lo0 + bounds[0] if bounds[0] is not None else lo0, lo0 + bounds[1] if bounds[1] is not None else hi0, True)]
+        if _mentions_buffer(e, g['regions']):
+            return [('opaque', unparse(e))]
+        return [('other',)]
+
+    # ------------------------------------------------------------- statements
+    def pre_stmt(self, env, s):
+        g = env.ghost
+        ys = [x for x in walk_self(s) if isinstance(x, (ast.Yield, ast.YieldFrom))]
+        if ys:
+            self.on_yield(env, s, ys)
+        if not isinstance(s, (ast.Assign, ast.AugAssign, ast.AnnAssign)) or (isinstance(s, ast.AnnAssign) and s.value is None):
+            return
+        for t in (s.targets if isinstance(s, ast.Assign) else [s.target]):
+            d = dotted(t) if isinstance(t, (ast.Name, ast.Attribute)) else None
+            if d == BUF:
+                self.on_buffer_store(env, s)
+                g['last'] = s
+            elif d == BPOS:
+                g['last'] = s
+            elif isinstance(t, ast.Name):
+                ps = self.pieces(env, s.value)
+                if isinstance(s, ast.AugAssign):
+                    ps = self.pieces(env, t) + ps if isinstance(s.op, ast.Add) else ([('opaque', unparse(s))] if _mentions_buffer(s, g['regions']) else [('other',)])
+                regs = dict(g['regions'])
+                if any(p[0] in ('buf', 'opaque') for p in ps):
+                    regs[t.id] = tuple(ps)
+                else:
+                    regs.pop(t.id, None)
+                g['regions'] = regs
+                g['srcnames'] = (g['srcnames'] | {t.id}) if (len(ps) == 1 and ps[0][0] == 'src') else (g['srcnames'] - {t.id})
+            elif isinstance(t, (ast.Tuple, ast.List)):
+                names = {x.id for x in ast.walk(t) if isinstance(x, ast.Name)}
+                g['regions'] = {k: r for k, r in g['regions'].items() if k not in names}
+                g['srcnames'] = g['srcnames'] - names
+
+    def on_buffer_store(self, env, s):
+        g = env.ghost
+        base, end = g['base'], self.buffer_end(env)
+        ps = self.pieces(env, s.value)
+        kinds = [p[0] for p in ps]
+        if isinstance(s, ast.AugAssign):
+            if not isinstance(s.op, ast.Add) or 'buf' in kinds or 'opaque' in kinds:
+                self.lose(env, 'buffer update `%s` not understood' % short(s, 60))
+            return                                              # append: positions are stable
+        if 'opaque' in kinds:
+            self.lose(env, 'buffer update `%s` not understood' % short(s, 60))
+        elif 'buf' not in kinds:
+            g['base'] = end                                     # replaced by data that follows the old buffer in the stream
+        elif kinds[0] == 'buf' and ps[0][3] and 'buf' not in kinds[1:] and env.prove_eq(ps[0][2], end):
+            g['base'] = ps[0][1]                                # trimmed (and possibly extended)
+        else:
+            self.lose(env, 'buffer update `%s` not understood' % short(s, 60))
+
+    def on_node(self, env, n, label):
+        if label == 'exc':
+            return
+        if n.kind == 'stmt':
+            self.pre_stmt(env, n.ast)
+        elif n.kind == 'iter' and label == 'next':
+            g = env.ghost
+            names = {x.id for x in ast.walk(n.stmt.target) if isinstance(x, ast.Name)}
+            g['regions'] = {k: r for k, r in g['regions'].items() if k not in names}
+            g['srcnames'] = g['srcnames'] - names
+            if isinstance(n.stmt.target, ast.Name) and dotted(strip_await(n.stmt.iter)) == SOURCE_IT:
+                g['srcnames'] = g['srcnames'] | {n.stmt.target.id}
+
+    # ------------------------------------------------------------------ calls
+    def on_call(self, env, call):
+        fn = call.func
+        if not isinstance(fn, ast.Attribute):
+            return None
+        recv_self = dotted(fn.value) == 'self'
+        if not recv_self and call.args and isinstance(call.args[0], (ast.Name, ast.Attribute)):
+            a0 = env.eval(call.args[0])
+            if isinstance(a0, Lin) and a0.lone() == ('v', DELIM):
+                if fn.attr == 'find':
+                    return self.on_find(env, call)
+                if fn.attr in _SEARCH_FAMILY:
+                    raise UnknownIdiom('%s: delimiter search through .%s() is not modelled (%s)' % (self.f.qual, fn.attr, short(call, 60)))
+        if recv_self and fn.attr in self.rd.methods:
+            callee = self.rd.methods[fn.attr]
+            if _inlinable(callee, call):
+                for s in callee.node.body:
+                    if isinstance(s, ast.Expr) and isinstance(s.value, ast.Constant):
+                        continue
+                    self.pre_stmt(env, s)
+                    env.exec(s)
+                return NONE
+            for a in list(call.args) + [k.value for k in call.keywords]:
+                env.eval(a.value if isinstance(a, ast.Starred) else a)
+            hv = [a for a in (BUF, BLEN, BPOS) if a in (self.rd.writes(fn.attr) or set())]
+            if hv:
+                env.havoc(hv, 'after %s' % fn.attr)
+                nb = env.vars[BUF].lone() if BUF in env.vars and isinstance(env.vars[BUF], Lin) else None
+                if BUF in hv and nb is not None:
+                    env.kind[nb] = 'seq'
+                env.add_eq(env.eval(_E_BLEN), env.length(env.eval(_E_BUF), BUF))     # class invariant, the callee's own obligation (R1)
+                env.add_le(0, env.eval(_E_BPOS))
+                env.add_le(env.eval(_E_BPOS), env.eval(_E_BLEN))
+                self.lose(env, 'the buffer is changed inside %s()' % fn.attr)
+            return Lin.atom(fresh('result of ' + short(call, 30)))
+        return None
+
+    def on_find(self, env, call):
+        g = env.ghost
+        r = fresh('find')
+        env.kind[r] = 'int'
+        R = Lin.atom(r)
+        env.add_le(-1, R)
+        extra = [env.eval(a.value if isinstance(a, ast.Starred) else a) for a in call.args[1:]] + [env.eval(k.value) for k in call.keywords]
+        recv = call.func.value
+        cur = self.cursor(env)
+        starts, covers = [], False
+        if dotted(recv) == BUF:
+            if call.keywords or (extra and (not isinstance(extra[0], Lin) or (extra[0].is_const and extra[0].c < 0))):
+                self.unknown('start argument of `%s` not understood' % short(call, 60))
+                return R
+            starts = [g['base'] + extra[0] if extra else g['base']]
+            covers = len(extra) < 2
+        else:
+            ps = self.pieces(env, recv)
+            if any(p[0] == 'opaque' for p in ps):
+                self.unknown('delimiter searched in `%s`, whose relation to the buffer is not understood' % short(recv, 60))
+                return R
+            starts = [p[1] for p in ps if p[0] == 'buf']
+            covers = len(ps) == 1 and ps[0][0] == 'buf' and ps[0][3] and not extra and env.prove_eq(ps[0][2], self.buffer_end(env))
+        if covers:
+            g['finds'] = g['finds'] + ((R, env.eval(_E_BUF)),)
+        if self.mode == 'R6' and not self.quiet and cur is not None:
+            for st in starts:
+                ok = env.prove_le(cur, st)
+                if not ok and (st - cur).tainted():
+                    self.unknown('; '.join(env.notes[-2:]))
+                    continue
+                self.v.note(self.f, 'search @%s' % unparse(call), 'every search for the delimiter starts at or after the cursor (consumed bytes are never searched again)',
+                            ok, call, 'the searched data starts %r byte(s) from the cursor, which is not provably >= 0' % (st - cur,), self.wit,
+                            'BufferedReader(BytesIO(b"-------").read, 7, 3): read(2), read_until(b"---", 2), read() -> b"----" instead of b"---" '
+                            '(a delimiter is "found" in front of the cursor and the cursor moves backwards)')
+        return R
+
+    # ----------------------------------------------------------------- yields
+    @staticmethod
+    def _same(a, b):
+        return a is b or (isinstance(a, Lin) and isinstance(b, Lin) and a == b and a.lone() is not None)
+
+    def on_yield(self, env, s, ys):
+        if self.mode not in ('R7', 'R8'):
+            return
+        g = env.ghost
+        if len(ys) != 1 or isinstance(ys[0], ast.YieldFrom) or ys[0].value is None:
+            self.unknown('`%s`: yield shape not understood' % short(s, 60))
+            return
+        val = ys[0].value
+        ps = self.pieces(env, val)
+        cur = self.cursor(env)
+        if cur is None:
+            return
+        if len(ps) == 1 and ps[0][0] == 'const' and ps[0][1] == 0:
+            return
+        base_after = g['base']
+        if len(ps) == 1 and ps[0][0] == 'src':
+            n = env.length(env.eval(val), short(val, 30))
+            lo = self.buffer_end(env)
+            hi = lo + n
+            base_after = g['base'] + n
+        elif len(ps) == 1 and ps[0][0] == 'buf' and ps[0][3]:
+            lo, hi = ps[0][1], ps[0][2]
+        else:
+            self.unknown('`%s`: the yielded value is not a tracked region of the buffer or an item of %s' % (short(s, 60), SOURCE_IT))
+            return
+        if g['lost']:
+            self.unknown(g['lost'])
+            g['base'] = base_after
+            g['prev'] = base_after + env.eval(_E_BPOS)
+            return
+        if self.mode == 'R8' and not self.quiet:
+            ok1 = env.prove_eq(g['prev'], lo)
+            ok2 = env.prove_eq(hi, base_after + env.eval(_E_BPOS))
+            if not ok1:
+                msg = 'the yielded bytes start %r byte(s) from where the cursor stood after the previous hand-out (not provably 0)' % (lo - g['prev'],)
+            else:
+                msg = 'at the yield the cursor is %r byte(s) short of the end of the yielded bytes (not provably 0): %s is not advanced over them' % (
+                    hi - (base_after + env.eval(_E_BPOS)), BPOS)
+            self.v.note(self.f, 'conserved @%s' % unparse(s), 'bytes handed out from the buffer are exactly the bytes the cursor has moved over when they are yielded',
+                        ok1 and ok2, s, msg, self.wit,
+                        'asgi BufferedReader over [b"abcdef"]: read_until(b"ZZ") -> b"abcdef", then read() returns b"abcdef" again and tell() lags behind')
+        if self.mode == 'R7' and not self.quiet and ps[0][0] == 'buf':
+            bufval = env.eval(_E_BUF)
+            for (R, bv) in g['finds']:
+                if not self._same(bv, bufval) or not _is_negative(env, R):
+                    continue
+                end = self.buffer_end(env)
+                ok = env.prove_le(hi + self.dl - Lin.const(1), end)
+                self.v.note(self.f, 'delimiter tail kept @%s' % unparse(s),
+                            'when the delimiter was not found in the buffered data, an early hand-out leaves at least len(delimiter) - 1 bytes in the buffer',
+                            ok, s, '%r byte(s) remain after the yielded region; not provably >= len(delimiter) - 1' % (end - hi,), self.wit,
+                            'source chunks b"a--", b"-b" with the first one buffered (peek): read_until(b"---", 2) returns b"a-" instead of b"a" '
+                            '(the first bytes of a delimiter completed by the next chunk are handed out)')
+        g['base'] = base_after
+        g['prev'] = base_after + env.eval(_E_BPOS)
+
+    def on_end(self, env, end):
+        if self.mode != 'R8' or self.quiet:
+            return
+        g = env.ghost
+        if g['lost']:
+            self.unknown(g['lost'])
+            return
+        cur = self.cursor(env)
+        if cur is None:
+            return
+        ok = env.prove_eq(g['prev'], cur)
+        self.v.note(self.f, 'cursor between hand-outs', 'between hand-outs the cursor keeps its stream position (trimming / replacing the buffer does not move it)',
+                    ok, g['last'] if g['last'] is not None else self.f.name,
+                    'at the end of the path the cursor is %r byte(s) from where the last hand-out left it (not provably 0)' % (cur - g['prev'],), self.wit,
+                    'buffered bytes are skipped (or returned twice) by the next read')
+
+    # ------------------------------------------------------------------ driver
+    def execute(self):
+        cfg = self.cfg
+        segs = list(segments(cfg))
+        inv = self.invariants = {h: set(_CANDIDATES) for h in loop_heads(cfg)}
+        self.quiet, changed = True, True
+        while changed:
+            changed = False
+            for start, steps, end in segs:
+                if not inv.get(end):
+                    continue
+                for e in run_steps(self.start_env(start), cfg, steps, self.on_node):
+                    if any(k == 'raise' for k, _v, _n in e.log):
+                        continue
+                    for c in sorted(inv[end]):
+                        a, b = _CANDIDATES[c](e)
+                        if not (isinstance(a, Lin) and isinstance(b, Lin) and e.prove_eq(a, b)):
+                            inv[end].discard(c)
+                            changed = True
+        self.quiet = False
+        self.run.extra.setdefault('c14_loop_invariants', {})[self.f.qual] = sorted('%s @%s' % (c, short(cfg.node(h).stmt, 40)) for h, cs in inv.items() for c in cs)
+        for start, steps, end in segs:
+            if end == cfg.xexit:
+                continue
+            self.wit = flow.describe_path(cfg, [s[0] for s in steps])
+            for e in run_steps(self.start_env(start), cfg, steps, self.on_node):
+                if any(k == 'raise' for k, _v, _n in e.log):
+                    continue
+                self.on_end(e, end)
+
+
+_MODEL_ASSUMPTION = ('C14 R6-R8: class invariant 0 <= _buffer_pos <= _buffer_len == len(_buffer) at every method entry, loop head and suspension point (R1); '
+                     'a generator of the reader is not interleaved with other operations on the same reader while it is suspended '
+                     '(its consumer may only stop it); slice bounds that equal a cursor position are within the buffer')
+
+
+def _is_delim_find(c):
+    return isinstance(c, ast.Call) and isinstance(c.func, ast.Attribute) and c.func.attr == 'find' and c.args and dotted(c.args[0]) == DELIM
+
+
+def r6_search_start(run):
+    """(A) no delimiter search looks at bytes in front of the cursor."""
+    v = Verdicts(run)
+    run.assume(_MODEL_ASSUMPTION)
+    for qual in (SYNC, ASYNC):
+        rd = Reader(run.project, qual)
+        n = 0
+        for name, f in sorted(rd.methods.items()):
+            if DELIM in f.params() and any(_is_delim_find(c) for c in walk_self(f.node)):
+                _StreamModel(run, v, rd, f, 'R6').execute()
+                n += 1
+        if not n:
+            raise AnchorError('%s: no method searches the buffer with .find(%s, ...)' % (qual, DELIM))
+    v.flush()
+
+
+def _buffer_generators(rd):
+    out = []
+    for name, f in sorted(rd.methods.items()):
+        nodes = list(walk_self(f.node))
+        if any(isinstance(x, (ast.Yield, ast.YieldFrom)) for x in nodes) and any(isinstance(x, ast.Attribute) and dotted(x) in (BUF, BPOS) for x in nodes):
+            out.append(f)
+    return out
+
+
+def r7_delimiter_not_split(run):
+    """(B) a size-capped early hand-out never tears a delimiter that the next chunk may complete (shared with C13)."""
+    v = Verdicts(run)
+    run.assume(_MODEL_ASSUMPTION)
+    rd = Reader(run.project, ASYNC)
+    gens = [f for f in _buffer_generators(rd) if DELIM in f.params()]
+    if not gens:
+        raise AnchorError('%s: no generator method takes a %s and hands out buffered data' % (ASYNC, DELIM))
+    for f in gens:
+        _StreamModel(run, v, rd, f, 'R7').execute()
+    v.flush()
+
+
+def r8_cursor_conservation(run):
+    """(C) conservation of the cursor in the generator methods of the asynchronous reader."""
+    v = Verdicts(run)
+    run.assume(_MODEL_ASSUMPTION)
+    rd = Reader(run.project, ASYNC)
+    require_attrs(run.project, ASYNC, [SOURCE_IT])
+    gens = _buffer_generators(rd)
+    if len(gens) < 2:
+        raise AnchorError('%s: fewer than 2 generator methods hand out buffered data' % ASYNC)
+    for f in gens:
+        _StreamModel(run, v, rd, f, 'R8').execute()
+    v.flush()
+
+
 def check(run):
     run.assume('C14: only falcon/util/reader.py and falcon/asgi/reader.py are decided; falcon/cyutil/reader.pyx (the compiled twin) is not analysed')
     run.extra['twin_drift_note'] = 'falcon/cyutil/reader.pyx is a hand-maintained Cython twin of falcon/util/reader.py; not parsed, not compared'
@@ -541,3 +991,6 @@ def check(run):
     run.rule('R3', r3_delimiter, 'delimiter consumption is verified; delimiter length confined', floor=4)
     run.rule('R4', r4_position, 'async reader: tell()/eof/_consumed', floor=4)
     run.rule('R5', r5_normalize, 'sync reader: size normalisation covers the domain of the size argument', floor=6)
+    run.rule('R6', r6_search_start, 'no delimiter search looks at bytes in front of the cursor', floor=6)
+    run.rule('R7', r7_delimiter_not_split, 'async reader: a size-capped early hand-out never splits a delimiter', floor=1)
+    run.rule('R8', r8_cursor_conservation, 'async reader: bytes yielded from the buffer are exactly the bytes the cursor moves over', floor=9)
